@@ -64,7 +64,16 @@ func (e *Engine) strOf(st *State, arr, off, n T) T {
 	if e.quant > 0 {
 		return r
 	}
+	// the same bytes denote the same string: reuse the identity (and its content facts) created on this path
+	key := st.pc.s + "|" + r.s
+	if prev, ok := e.strOfMemo[key]; ok && prev.idx < len(e.defs) && e.defs[prev.idx].name == prev.t.s {
+		return prev.t
+	}
 	r = e.nameAlways("str", r)
+	if e.strOfMemo == nil {
+		e.strOfMemo = map[string]strMemo{}
+	}
+	e.strOfMemo[key] = strMemo{r, len(e.defs) - 1}
 	e.assume(st, Eq(e.slen(r), n), "string(bytes) length")
 	if nv, ok := constInt(n); ok && nv <= 128 {
 		// constant length: ground content facts (keeps key reasoning quantifier-free)
@@ -87,6 +96,10 @@ func (e *Engine) strOf(st *State, arr, off, n T) T {
 }
 
 type strTerm struct{ id, arr, off, n T }
+type strMemo struct {
+	t   T
+	idx int
+}
 
 func (e *Engine) isDroppedCall(call *ast.CallExpr) bool {
 	fn := e.calleeFunc(call)
@@ -258,6 +271,13 @@ func (e *Engine) evalCall(st *State, call *ast.CallExpr) Value {
 				return e.evalGhostOf(st, call)
 			}
 		}
+		if id, ok := ix.X.(*ast.Ident); ok && id.Name == "valAt" {
+			if f, ok := e.pkg.info.Uses[id].(*types.Func); ok && f.Pkg() == nil {
+				m := e.eval(st, call.Args[0])
+				k := e.mapKey(st, e.eval(st, call.Args[1]), call.Args[1])
+				return e.cellToValue(st, e.mapCell(st, m, k), e.typeOf(ix.Index))
+			}
+		}
 		if id, ok := ix.X.(*ast.Ident); ok && id.Name == "isType" {
 			if f, ok := e.pkg.info.Uses[id].(*types.Func); ok && f.Pkg() == nil {
 				iv, ok := e.eval(st, call.Args[0]).(IfaceV)
@@ -288,6 +308,11 @@ func (e *Engine) evalCall(st *State, call *ast.CallExpr) Value {
 		if f, ok := fv.(FuncV); ok && f.lit != nil {
 			sig := e.typeOf(call.Fun).Underlying().(*types.Signature)
 			args := e.evalArgs(st, call, sig)
+			if f.pkg != nil && f.pkg != e.pkg {
+				save := e.pkg
+				e.pkg = f.pkg
+				defer func() { e.pkg = save }()
+			}
 			return e.inlineLit(st, f.lit, args, call)
 		}
 		if f, ok := fv.(FuncV); ok && f.fn != nil {
@@ -388,6 +413,13 @@ func (e *Engine) dispatch(st *State, fn *types.Func, args []Value, call *ast.Cal
 	full := fn.FullName()
 	if v, ok := e.externalModel(st, full, fn, args, call, sig); ok {
 		return v
+	}
+	if e.fc != nil && len(e.fc.expand) > 0 && len(e.inlineStack) < 4 {
+		for _, x := range e.fc.expand {
+			if fi := e.prog.funcs[full]; fi != nil && fi.decl.Body != nil && (full == x || strings.HasSuffix(full, "/"+x) || strings.HasSuffix(full, "."+x)) {
+				return e.inlineFunc(st, fi, args, call)
+			}
+		}
 	}
 	if fc := e.prog.contracts[full]; fc != nil && !fc.inline {
 		return e.callContract(st, fc, args, call)
@@ -751,7 +783,7 @@ func (e *Engine) evalBuiltin(st *State, call *ast.CallExpr, name string) Value {
 	case "delete":
 		m := e.eval(st, call.Args[0])
 		k := e.eval(st, call.Args[1])
-		e.mapDelete(st, m, k)
+		e.mapDelete(st, m, k, under(e.typeOf(call.Args[0])).(*types.Map).Key())
 		return TupleV{}
 	case "panic":
 		for _, a := range call.Args {
@@ -1128,16 +1160,36 @@ func (e *Engine) evalSpecHelper(st *State, call *ast.CallExpr, name string) Valu
 		env := map[types.Object]Value{}
 		var names []string
 		var ranges []T
+		// goal-directed instantiation (see Engine.skolemGoal): a positive forall of a goal is proved for fresh
+		// constants; a positive forall of an assumption is instantiated at the constants chosen for the goal
+		ground := false
+		var consts []T
+		if name == "forall" && e.pol > 0 && e.quant == 0 {
+			if e.skolemGoal {
+				ground = true
+			} else if e.instWith != nil {
+				consts, ground = e.instWith[lit]
+			}
+		}
 		for i := 0; i < sig.Params().Len(); i++ {
 			p := sig.Params().At(i)
 			e.nsym++
 			vn := fmt.Sprintf("%s!q%d", sanitize(p.Name()), e.nsym)
+			if ground {
+				if e.skolemGoal {
+					c := e.fresh("sk_"+sanitize(p.Name()), SInt)
+					consts = append(consts, c)
+				}
+				vn = consts[i].s
+			}
 			names = append(names, vn)
 			vt := T{vn, SInt}
 			if e.quantVars == nil {
 				e.quantVars = map[types.Object]bool{}
 			}
-			e.quantVars[p] = true
+			if !ground {
+				e.quantVars[p] = true
+			}
 			switch u := under(p.Type()).(type) {
 			case *types.Basic:
 				if u.Info()&types.IsString != 0 {
@@ -1160,12 +1212,35 @@ func (e *Engine) evalSpecHelper(st *State, call *ast.CallExpr, name string) Valu
 		if !ok || len(ret.Results) != 1 {
 			e.fail(call, "quantifier body must be a single return")
 		}
+		if ground {
+			if e.skolemGoal {
+				e.skolemOf[lit] = consts
+			}
+			e.envStack = append(e.envStack, env)
+			body := e.asBool(e.eval(st, ret.Results[0]), ret.Results[0])
+			e.envStack = e.envStack[:len(e.envStack)-1]
+			return BoolV{Implies(And(ranges...), body)}
+		}
 		e.hoistCalls(st, ret.Results[0], env)
 		e.envStack = append(e.envStack, env)
 		e.quant++
+		e.quantSide = append(e.quantSide, nil)
+		savePol := e.pol
+		e.pol = 0
 		body := e.asBool(e.eval(st, ret.Results[0]), ret.Results[0])
+		e.pol = savePol
+		side := e.quantSide[len(e.quantSide)-1]
+		e.quantSide = e.quantSide[:len(e.quantSide)-1]
 		e.quant--
 		e.envStack = e.envStack[:len(e.envStack)-1]
+		if len(side) > 0 {
+			sf := Forall(names, Implies(And(ranges...), And(side...)))
+			if e.quant > 0 && len(e.quantSide) > 0 {
+				e.quantSide[len(e.quantSide)-1] = append(e.quantSide[len(e.quantSide)-1], sf)
+			} else {
+				e.assume(st, sf, "typed memory: facts about terms under a quantifier")
+			}
+		}
 		if name == "forall" {
 			return BoolV{Forall(names, Implies(And(ranges...), body))}
 		}
@@ -1582,11 +1657,16 @@ func (e *Engine) hoistCalls(st *State, body ast.Expr, bound map[types.Object]Val
 			}
 		case *ast.IndexExpr:
 			if tv, ok := e.pkg.info.Types[x.X]; ok && !tv.IsType() {
-				if _, isMap := under(tv.Type).(*types.Map); !isMap {
+				_, isMap := under(tv.Type).(*types.Map)
+				_, isFn := under(tv.Type).(*types.Signature) // instantiation of a generic, not an element access
+				if !isMap && !isFn {
 					return x, true
 				}
 			}
 		case *ast.StarExpr:
+			if tv, ok := e.pkg.info.Types[x]; ok && tv.IsType() {
+				return nil, false
+			}
 			return x, true
 		}
 		return nil, false
